@@ -26,6 +26,9 @@ const (
 // family sizes
 const nCaptions = 81
 
+// footnote family: parent display × footnote display × footnote-display × 3 shapes
+const nFoot = 3 * 4 * n20 * n20
+
 func famSizes(tier string) (chain3, sib, oof, pseudo, chain4, random int) {
 	chain3 = 2 * n20 * n20 * n20 // with and without text
 	sib = 3 * n20 * n20 * n20    // separators: none, white space, text
@@ -70,6 +73,12 @@ func genCase(r *rand.Rand, i int, tier string) Input {
 		return genPseudo(disp20[i/n20], disp20[i%n20], after)
 	}
 	i -= pseudo
+	if i < nFoot {
+		shape := i / (4 * n20 * n20)
+		i %= 4 * n20 * n20
+		return genFootnote(disp20[(i/n20)%n20], disp20[i%n20], []string{"", "block", "inline", "compact"}[i/(n20*n20)], shape)
+	}
+	i -= nFoot
 	if i < chain4 {
 		withText := i >= chain4/2
 		i %= chain4 / 2
@@ -86,7 +95,7 @@ func init() {
 			"A case is non-trivial when at least one element other than html/body is rendered, every clause held, and the observed tree has more boxes than the document has rendered elements (text, line, anonymous or wrapper boxes were generated and walked); distinct = distinct input.",
 		N: func(tier string) int {
 			a, b, c, d, e, f := famSizes(tier)
-			return a + b + c + d + e + f
+			return a + b + c + d + e + f + nFoot
 		},
 		Gen: func(r *rand.Rand, i int, tier string) any { return genCase(r, i, tier) },
 		Check: func(raw json.RawMessage) fw.Result {
@@ -148,6 +157,17 @@ func check(raw json.RawMessage) fw.Result {
 	// evidence: what the model declared hidden and the walk confirmed absent
 	rendered := 0
 	for _, e := range m.list {
+		if e.n.Float == "footnote" && e.parent != nil {
+			switch {
+			case !isFootnoteNode(e.n):
+				res.Count("footnote_float_on_abspos", 1) // computed float none: an ordinary positioned element
+			case e.shown && !(m.rootNone && e.parent != nil):
+			case specifiedDisplay(e.n) == "none":
+				res.Count("footnote_display_none_verified", 1) // display:none + float:footnote: no call, no footnote box
+			default:
+				res.Count("footnote_hidden_verified", 1)
+			}
+		}
 		switch {
 		case e.shown && !(m.rootNone && e.parent != nil):
 			rendered++
